@@ -144,8 +144,10 @@ def run(prop, tier, seed):
                 ctx.notes.append("Coq build: %s do(es) not build; Properties/%s.v does not depend on it" % (sorted(bad), pid))
                 okc = True
         depsp = core.coq_deps(pid)
-        if regen_msgs and (depsp is None or any(d.startswith("theories/Gen/") for d in depsp)):
-            for m in regen_msgs:
+        for m in regen_msgs:
+            # a translator's failure concerns the properties whose theorems depend on the file it generates
+            gen_file = "theories/Gen/LockOrder.v" if m.startswith("lockorder") else "theories/Gen/SearchAsm.v"
+            if depsp is None or gen_file in depsp:
                 broken.append("translator: " + m)
         obligations.append(("coq-build:make(full .vo) of Properties/%s.v and everything it depends on" % pid, okc,
                             "" if okc else (failing or "") + clog[-1500:]))
